@@ -170,7 +170,7 @@ pub fn live_obs(live: &Live, s: usize, plan: &QPlan) -> QObs {
         for p in preds {
             match rows_of(live.query(s, &format!("SELECT * FROM {} WHERE {}", n, p.sql()))) {
                 Ok(r) => lookups.push(r),
-                Err(e) => lookups.push(vec![vec![Val::Text(format!("ERROR: {}", e))]]),
+                Err(e) => lookups.push(vec![vec![Val::Text(format!("ERR:{}", crate::dsim::ops::trunc(&e, 60)))]]),
             }
         }
         out.insert(n.clone(), TableObs::Data { scan, count, lookups });
@@ -268,6 +268,19 @@ pub fn diff_obs(expected: &QObs, observed: &QObs, plan: &QPlan) -> Option<ObsDif
         }
     }
     count_diff.or(lookup_diff)
+}
+
+/// `file:line` of a panic mentioned in a diff detail ("PANIC at src/x.rs:12 ...").
+pub fn panic_site_in(detail: &str) -> Option<String> {
+    let i = detail.find("PANIC at ")?;
+    let rest = &detail[i + 9..];
+    let end = rest.find(|c: char| c == ' ' || c == '\'' || c == ')' || c == '.' && false).unwrap_or(rest.len());
+    let site = rest[..end].trim_end_matches(|c: char| c == '.' || c == ',' || c == '\'');
+    if site.is_empty() {
+        None
+    } else {
+        Some(site.to_string())
+    }
 }
 
 pub fn obs_hash(o: &QObs) -> u64 {
